@@ -206,6 +206,24 @@ PROPS = {
     },
 }
 
+# amendments to the level texts (theorems added after the texts above were written)
+def _amend(pid, old, new):
+    assert old in PROPS[pid]["level_text"], (pid, old[:40])
+    PROPS[pid]["level_text"] = PROPS[pid]["level_text"].replace(old, new, 1)
+
+_amend("C04", "so inside a frame ancestors come first. PARTIAL: monotonicity of round received along ancestry (across frames) and at-most-once commitment are decided by the oracle on the real code.",
+       "so inside a frame ancestors come first; for every insertion history of events with distinct ids into a node started from genesis no delivered block lists an event twice and no two delivered blocks share an event (every_event_committed_at_most_once: the received lists of the rounds stay duplicate-free and pairwise disjoint through every pass). On the declarative model Babble.Dag (static set, compared with the Go code on every view): an ancestor has a strictly smaller Lamport timestamp and is received in the same or an earlier round.")
+_amend("C14", "signed only by strangers is refused however consistent internally (forged_set_refused);",
+       "signed only by strangers is refused however consistent internally (forged_set_refused), in every state a node can reach from its configuration through join responses with any claimed peer list, consensus receipts, fast-forward responses and other messages (strangers_never_adopted, model Babble.Trust: the three sets only ever hold keys that were configured, put there by consensus, or members of the frame of an accepted response; tied to the code by the writer sets of core.peers / genesisPeers / validators and by join-then-fast-forward histories run on both sides);")
+_amend("C19", "Proof (Lean 4): sm_least, trusted_needs_more_than_third, two_supermajorities_intersect,",
+       "Proof (Lean 4): sm_least, trusted_needs_more_than_third, supermajority_sites_accept_iff (every site of the consensus code that compares a count with the supermajority — strongly-see, round, normal and coin vote, round decided, round received — accepts exactly the counts above 2n/3; the comparison operator of each site is regenerated from its source), trust_sites_need_more_than_third, two_supermajorities_intersect,")
+_amend("C19", "the float ceil and the real PeerSet are tied to the generated definitions exhaustively for n=0..100000.",
+       "the float ceil and the real PeerSet are tied to the generated definitions exhaustively for n=0..100000; the decisions that use the thresholds are exercised by hashgraphs built against the fame election (split votes, coin rounds, counts of exactly the supermajority, a decider delivered late) on several real nodes, which must decide the same fame and deliver the same blocks.")
+_amend("C03", "and fame does not depend on the decider.",
+       "and fame does not depend on the decider. On the operational model (any validator-set behaviour): whatever round, witness flag, Lamport timestamp, round received or fame an event has at some moment of an insertion history, it has after every continuation (assigned_values_are_final, fame_decisions_are_final).")
+_amend("C05", "every committed transaction comes from an event of the frame (C04).",
+       "every committed transaction comes from an event of the frame (C04), and no event is committed twice on a node (no_event_payload_committed_twice, operational model).")
+
 # Properties not (yet) claimed. Kept current by hand; see DESIGN.md.
 _ALL = ["C%02d" % i for i in range(1, 21)]
 _PENDING_REASON = "check not built yet in this revision of the framework (planned; see DESIGN.md §7) — not a claim that the technique cannot apply"
